@@ -51,9 +51,7 @@ type TaskPlan struct {
 
 type Corruption struct {
 	Class string `json:"class"`
-	A     string `json:"a,omitempty"`
-	B     string `json:"b,omitempty"`
-	C     string `json:"c,omitempty"`
+	N     int    `json:"n"` // selects the target among the candidates present in the reached state
 }
 
 type Plan struct {
@@ -714,6 +712,15 @@ func GenPlan(profile, prop string, seed uint64) *Plan {
 		}
 		cfg.BatchRate = []float64{0, 0.3, 0.6, 1}[r.IntN(4)]
 		cfg.Listeners = true
+	case "integrity":
+		cfg.Tasks = 1
+		cfg.TxPerTask = 3 + r.IntN(12)
+		cfg.PValid = []float64{0.9, 0.97}[r.IntN(2)]
+		cfg.FaultRate = []float64{0, 0.05}[r.IntN(2)]
+		cfg.Faults = []string{"F1", "F7"}
+		cfg.Reopen = []float64{0, 0.05}[r.IntN(2)]
+		cfg.Hostile = r.IntN(8) == 0
+		cfg.Weights = map[string]int{"create": 50, "update": 20, "delete": 6, "link": 20, "rc": 4}
 	case "txenum":
 		// one task: a few fault-free set-up transactions, then the target transaction whose every failure
 		// position x kind is enumerated by the C07 check
@@ -739,6 +746,15 @@ func GenPlan(profile, prop string, seed uint64) *Plan {
 			tp.Txs = append(tp.Txs, g.genTx())
 		}
 		p.Tasks = append(p.Tasks, tp)
+	}
+	if profile == "integrity" {
+		nc := 0
+		if r.IntN(7) != 0 {
+			nc = 1 + r.IntN(6)
+		}
+		for i := 0; i < nc; i++ {
+			p.Corrupt = append(p.Corrupt, Corruption{Class: pick(r, corruptionClasses), N: r.IntN(64)})
+		}
 	}
 	if profile == "txenum" {
 		g.cfg.Weights = defaultWeights("C07")
